@@ -10,7 +10,7 @@
    "twin" a file whose normalised text equals another file's (every file is a license of its own, whatever it says). *)
 EXTENDS Integers, Sequences, FiniteSets, TLC, Json, SequencesExt
 
-CONSTANTS Cands, MaxFiles      \* candidate files [name, kind]
+CONSTANTS Cands, MaxFiles      \* candidate files [name, kind, dir]: dir is the path the file is given with (the archive knows files by their names)
 
 IsTxt(f) == f.kind # "other"
 RECURSIVE Archive(_)
@@ -32,7 +32,7 @@ Grow == /\ phase = "grow" /\ Len(files) < MaxFiles
         /\ \E f \in Cands : (\A i \in 1..Len(files) : files[i] # f) /\ files' = Append(files, f)     \* a SET of files, in some order
         /\ UNCHANGED phase
 Emit == /\ phase = "grow" /\ phase' = "done" /\ UNCHANGED files
-        /\ PrintT(ToJson([files |-> [i \in 1..Len(files) |-> <<files[i].name, files[i].kind>>],
+        /\ PrintT(ToJson([files |-> [i \in 1..Len(files) |-> <<files[i].name, files[i].kind, files[i].dir>>],
                           keys |-> {k.key : k \in Load(Archive(files))},
                           empties |-> {k.key : k \in {x \in Load(Archive(files)) : x.empty}}]))
 Next == Grow \/ Emit
